@@ -39,7 +39,7 @@ func genESpec(t *rapid.T, pr profile, seg int) ESpec {
 		n := rapid.IntRange(1, 12).Draw(t, "hwords")
 		e := ESpec{}
 		for i := 0; i < n; i++ {
-			e.Hostile = append(e.Hostile, byte(rapid.IntRange(0, 5).Draw(t, "hw")))
+			e.Hostile = append(e.Hostile, byte(rapid.IntRange(0, 8).Draw(t, "hw")))
 		}
 		return e
 	}
@@ -188,6 +188,15 @@ func runFor(p string) func(Case) common.Result {
 }
 
 func TestCrashC01(t *testing.T) { common.Run(t, "C01", "CrashC01", genCase("C01"), runFor("C01")) }
+
+// TestCrashC01Stale judges C01 over the stale-bytes chains of the C02 profile (several torn batches
+// on top of each other, sizes coupled so that old commit frames line up with new ones).
+func TestCrashC01Stale(t *testing.T) {
+	common.Run(t, "C01", "CrashC01Stale", genCase("C02"), runFor("C01"))
+}
+func TestCrashC03Stale(t *testing.T) {
+	common.Run(t, "C03", "CrashC03Stale", genCase("C02"), runFor("C03"))
+}
 func TestCrashC02(t *testing.T) { common.Run(t, "C02", "CrashC02", genCase("C02"), runFor("C02")) }
 func TestCrashC03(t *testing.T) { common.Run(t, "C03", "CrashC03", genCase("C03"), runFor("C03")) }
 func TestCrashC04(t *testing.T) { common.Run(t, "C04", "CrashC04", genCase("C04"), runFor("C04")) }
